@@ -123,7 +123,7 @@ while done < n and attempts < 6 * n:
                 o, rc_ = pr.stdout.decode("utf-8", "replace"), pr.returncode
             except subprocess.TimeoutExpired:
                 o, rc_ = "", 124
-            if "no longer compiles" in o or "does not build" in o:
+            if "could not compile" in o or "does not build" in o:
                 rec["result"] = "nocompile"
                 break
             rec["tried"].append([q, rc_])
